@@ -64,7 +64,7 @@ where
               },
               move |serial| {
                 if is_win_complete(&serial) {
-                  sctl_complete.sink_complete(&serial);
+                  sctl_complete.sink_complete_force();
                 } else {
                   sctl_complete.upstream_abort_observe(&serial);
                 }
